@@ -12,10 +12,10 @@ extern "C" {
 }
 typedef long double LD;
 
-enum { L_TRAP, L_BELL, L_REVERSED, L_CRUISE, L_NO_CRUISE, L_TA_ZERO, L_TD_ZERO, L_AM_REDUCED, L_OPPOSING_V0, L_CLAMPED, L_RETURN_NONPOS, L_V_ON_LIMIT, L_V1_REWRITTEN, L_UNEQUAL_ACC_DEC, L_REPAIRED, L_LATTICE, L_SEARCH_GRID, L_ZERO_LENGTH };
+enum { L_TRAP, L_BELL, L_REVERSED, L_CRUISE, L_NO_CRUISE, L_TA_ZERO, L_TD_ZERO, L_AM_REDUCED, L_OPPOSING_V0, L_CLAMPED, L_RETURN_NONPOS, L_V_ON_LIMIT, L_V1_REWRITTEN, L_UNEQUAL_ACC_DEC, L_REPAIRED, L_LATTICE, L_SEARCH_GRID, L_ZERO_LENGTH, L_REPLANNED };
 static char const *const labels[] = {"trapezoid", "bell", "reversed_travel", "cruise_phase", "no_cruise_phase", "acceleration_phase_empty", "deceleration_phase_empty",
                                      "bell_acceleration_limit_not_reached", "initial_velocity_opposes_travel", "boundary_velocity_clamped", "generator_returned_nonpositive",
-                                     "boundary_velocity_on_limit", "final_velocity_rewritten_by_planner", "trap_unequal_acc_dec_and_speeds", "bell_request_repaired_to_feasible", "all_quantities_on_a_coarse_lattice", "single_phase_switch_over_next_to_a_search_grid_value", "bell_move_of_length_zero_with_velocity_reversal", nullptr};
+                                     "boundary_velocity_on_limit", "final_velocity_rewritten_by_planner", "trap_unequal_acc_dec_and_speeds", "bell_request_repaired_to_feasible", "all_quantities_on_a_coarse_lattice", "single_phase_switch_over_next_to_a_search_grid_value", "bell_move_of_length_zero_with_velocity_reversal", "context_re_planned_another_request_first", nullptr};
 static char const *const metrics[] = {"max_limit_ratio_minus_1", "max_continuity_jump_over_tol", "max_derivative_mismatch_over_tol", nullptr};
 static uint8_t const dict[] = {0, 255, 128, 127};
 static vp_info const info = {"C14", "traj", "", labels, metrics, 64, dict, sizeof(dict)};
@@ -71,11 +71,16 @@ static void case_trap(Tape &t, Ctx &cx)
     cx.log("trap vm=%.17g ac=%.17g de=%.17g p0=%.17g p1=%.17g v0=%.17g v1=%.17g\n", vm, ac, de, p0, p1, v0, v1);
     a_trajtrap c;
     memset(&c, 0, sizeof(c));
+    // a context is re-planned in ordinary use: in half of the cases another (derived) request is planned on the same object first;
+    // nothing of it may show in the plan that is judged
+    bool const replan = (cx.hash.h & 1) != 0;
+    if (replan) { (void)a_trajtrap_gen(&c, vm * 2, ac * 3, de / 2, p1, p0 + 1, -v1 / 2, v0 / 3); cx.label(L_REPLANNED); }
     double T = a_trajtrap_gen(&c, vm, ac, de, p0, p1, v0, v1);
     {
         // C++ member interface of the same structure: same arguments, same object, same values
         a_trajtrap w;
         memset(&w, 0, sizeof(w));
+        if (replan) { (void)w.gen(vm * 2, ac * 3, de / 2, p1, p0 + 1, -v1 / 2, v0 / 3); }
         double Tw = w.gen(vm, ac, de, p0, p1, v0, v1);
         VP_CHECK(cx, memcmp(&Tw, &T, 8) == 0 && memcmp(&w, &c, sizeof(c)) == 0, "trap:member_gen_differs", "the C++ member gen() and a_trajtrap_gen() disagree (durations %.17g / %.17g)", Tw, T);
         double xq = T > 0 ? T * 0.37 : 0.5;
@@ -182,10 +187,13 @@ static void bell_oracle(Ctx &cx, double jm, double am, double vm, double p0, dou
     cx.log("bell jm=%.17g am=%.17g vm=%.17g p0=%.17g p1=%.17g v0=%.17g v1=%.17g\n", jm, am, vm, p0, p1, v0, v1);
     a_trajbell c;
     memset(&c, 0, sizeof(c));
+    bool const replan = (cx.hash.h & 1) != 0; // (see the trapezoid: another request planned on the same object first)
+    if (replan) { (void)a_trajbell_gen(&c, jm * 2, am / 2, vm * 3, p1, p0 + 1, -v1 / 2, v0 / 3); cx.label(L_REPLANNED); }
     double T = a_trajbell_gen(&c, jm, am, vm, p0, p1, v0, v1);
     {
         a_trajbell w;
         memset(&w, 0, sizeof(w));
+        if (replan) { (void)w.gen(jm * 2, am / 2, vm * 3, p1, p0 + 1, -v1 / 2, v0 / 3); }
         double Tw = w.gen(jm, am, vm, p0, p1, v0, v1);
         VP_CHECK(cx, memcmp(&Tw, &T, 8) == 0 && memcmp(&w, &c, sizeof(c)) == 0, "bell:member_gen_differs", "the C++ member gen() and a_trajbell_gen() disagree (durations %.17g / %.17g)", Tw, T);
         double xq = T > 0 ? T * 0.37 : 0.5;
